@@ -454,19 +454,37 @@ func (e *Engine) noteAssumption(g *FuncGen, a string) {
 	g.assumptions[a] = true
 }
 
-// noteGlobal: assume the declared facts about package-level variables
-// (`global <expr>` clauses) when the function first touches any global.
+// noteGlobal: assume the declared facts about the package-level variables of a
+// package (`global <expr>` clauses) when the function first touches one of them:
+// in the entry heap and in every heap version created by a havoc so far.
 func (e *Engine) noteGlobal(g *FuncGen, gl *ssa.Global, ref string) {
-	if g.globalsDone {
+	if gl.Pkg == nil {
 		return
 	}
-	g.globalsDone = true
+	pkg := gl.Pkg.Pkg.Path()
+	if g.globalPkgs == nil {
+		g.globalPkgs = map[string]bool{}
+	}
+	if g.globalPkgs[pkg] {
+		return
+	}
+	g.globalPkgs[pkg] = true
+	e.assertGlobals(g, pkg, g.entryHeap)
+	for _, h := range g.havocHeaps {
+		e.assertGlobals(g, pkg, h)
+	}
+}
+
+func (e *Engine) assertGlobals(g *FuncGen, pkg string, h *Heap) {
 	for _, ga := range e.cs.Globals {
+		if ga.PkgPath != pkg {
+			continue
+		}
 		p := e.tpkgs[ga.PkgPath]
 		if p == nil {
 			continue
 		}
-		env := &Env{g: g, vars: map[string]Val{}, heap: g.entryHeap, old: g.entryHeap, pkg: p}
+		env := &Env{g: g, vars: map[string]Val{}, heap: h, old: g.entryHeap, pkg: p}
 		t, err := g.evalBool(ga.Expr, env)
 		if err != nil {
 			g.abstract("global assumption not evaluable: " + ga.Src + ": " + err.Error())
